@@ -22,7 +22,7 @@ RULE = ("annotations (valid and with one tree-level fault) from the C01 generato
 ASSUMPTIONS = ["relational monitor paired with the XML oracle for containment",
                "prefixing is done on the text of each tag, definitions are prefixed the same way"]
 MIN_MONITOR_EVALS = {"load-order-independent": 30, "prefixed-equals-alone": 1500, "bad-prefix-is-error": 200, "standard-tag-in-library": 4000,
-                     "refusal": 8, "acceptance": 3}
+                     "refusal": 12, "acceptance": 4, "merged-holds-constituent-tag": 2000}
 GROUPS = [
     (["8.3.0", "sc:score_2.0.0"], [("", "8.3.0"), ("sc:", "score_2.0.0")]),
     (["8.2.0", "sc:score_1.1.0"], [("", "8.2.0"), ("sc:", "score_1.1.0")]),
@@ -31,7 +31,11 @@ GROUPS = [
     (["8.2.0", "tl:testlib_3.0.0"], [("tl:", "testlib_3.0.0"), ("", "8.2.0")]),
     (["aa:8.3.0", "sc:score_2.0.0"], [("aa:", "8.3.0"), ("sc:", "score_2.0.0")]),
     (["xx:8.3.0"], [("xx:", "8.3.0")]),
+    # two libraries that share a standard partner, merged under one prefix, in both orders
+    (["8.2.0", "mm:score_1.1.0", "mm:testlib_2.0.0"], [("mm:", "testlib_2.0.0"), ("mm:", "score_1.1.0"), ("", "8.2.0")]),
+    (["mm:testlib_2.0.0", "mm:score_1.1.0"], [("mm:", "testlib_2.0.0"), ("mm:", "score_1.1.0")]),
 ]
+MERGED = [["score_1.1.0", "testlib_2.0.0"], ["testlib_2.0.0", "score_1.1.0"]]
 TREE_KINDS = ["unknown-tag", "extension-forbidden", "requires-child", "bad-unit", "bad-value", "repeated-tag",
               "repeated-group", "taggroup-outside-group", "toplevel-nested", "empty-group", "undeclared-def",
               "def-extra-value", "def-missing-value", "altered-def-expand", "second-event-context",
@@ -51,6 +55,8 @@ def shards(tier, seed):
                 out.append(dict(kind="history", group=gi, ns=ns, member=member, n=12 if tier == "quick" else 60))
     for v in env.PARTNERED:
         out.append(dict(kind="containment", version=v))
+    for m in MERGED:
+        out.append(dict(kind="merged-containment", versions=m))
     out.append(dict(kind="refusals", clones=4 if tier == "quick" else 40))
     return out
 
@@ -194,6 +200,33 @@ def run_containment(shard, rec):
     rec.sample(dict(kind="containment", library=v, standard=lib_o.with_standard, standard_tags=n, own_tags=len(own)))
 
 
+def run_merged_containment(shard, rec):
+    """A schema merged from two libraries holds every tag of each constituent with unchanged meaning."""
+    merged = env.schema(shard["versions"])
+    total = 0
+    for v in shard["versions"]:
+        o = schema_xml.load(v)
+        alone = env.schema(v)
+        for node in o.nodes:
+            total += 1
+            rec.mon("merged-holds-constituent-tag")
+            case = dict(kind="merged-containment", versions=shard["versions"], constituent=v, node=node.path)
+            e_m = merged.get_tag_entry(node.path)
+            e_a = alone.get_tag_entry(node.path)
+            if e_a is None:
+                rec.violation("hed does not resolve a tag of a library loaded alone", case)
+                continue
+            if e_m is None or e_m.long_tag_name != node.path or merged.get_tag_entry(node.name) is not e_m:
+                rec.violation("a tag of a constituent library is missing from the merged schema", case)
+                continue
+            if e_m.attributes != e_a.attributes or e_m.description != e_a.description or \
+                    sorted(e_m.unit_classes) != sorted(e_a.unit_classes) or \
+                    sorted(e_m.value_classes) != sorted(e_a.value_classes) or \
+                    (node.hash_child is not None) != (merged.get_tag_entry(node.path + "/#") is not None):
+                rec.violation("a tag's meaning differs between the merged schema and its library alone", case)
+    rec.bulk(total, total)
+
+
 def make_clone(src_version, new_lib, mode, index):
     """XML text of a clone of a partnered library under a new library name.
     mode 'same': same tags (must clash); 'renamed': every library-owned node renamed (must not clash)."""
@@ -238,6 +271,11 @@ def run_refusals(shard, rec):
     expect_load(rec, "same standard twice", ["8.3.0", "8.3.0"], False)
     expect_load(rec, "two standard schemas under one prefix", ["8.3.0", "8.2.0"], False)
     expect_load(rec, "two versions of one library under one prefix", ["testlib_2.0.0", "testlib_2.1.0"], False)
+    expect_load(rec, "two versions of one library under one prefix (reversed)", ["testlib_2.1.0", "testlib_2.0.0"], False)
+    expect_load(rec, "two library versions clashing only on rooted tags", ["testlib_2.1.0", "testlib_3.0.0"], False)
+    expect_load(rec, "two library versions clashing only on rooted tags (reversed)", ["testlib_3.0.0", "testlib_2.1.0"], False)
+    expect_load(rec, "two library versions clashing only on rooted tags (prefixed)", ["q:testlib_3.0.0", "q:testlib_2.1.0"], False)
+    expect_load(rec, "two libraries sharing withStandard, disjoint tags (reversed)", ["testlib_2.0.0", "score_1.1.0"], True)
     expect_load(rec, "libraries with different withStandard under one prefix", ["score_2.0.0", "testlib_3.0.0"], False)
     expect_load(rec, "standard and its partnered library under one prefix", ["8.3.0", "score_2.0.0"], False)
     expect_load(rec, "non-alphabetic prefix", ["8.3.0", "s1:score_2.0.0"], False)
@@ -338,6 +376,8 @@ def run_shard(shard, rec):
         run_relational(shard, rec)
     elif shard["kind"] == "containment":
         run_containment(shard, rec)
+    elif shard["kind"] == "merged-containment":
+        run_merged_containment(shard, rec)
     else:
         run_refusals(shard, rec)
 
@@ -349,6 +389,8 @@ def replay(case, rec):
         check_bad_prefix(case, rec)
     elif case["kind"] == "containment":
         run_containment(dict(version=case["library"]), rec)
+    elif case["kind"] == "merged-containment":
+        run_merged_containment(dict(versions=case["versions"]), rec)
     elif case["kind"] == "history":
         versions, _ = GROUPS[case["group"]]
         cs = [dict(defs=case["defs"], pdefs=case["pdefs"], text=case["text"], ptext=case["ptext"])]
